@@ -12,6 +12,23 @@ let rec take n l = if n = 0 then ([], l) else match l with [] -> failwith "take"
 let nn s = n_of_int (ios s)
 let rec pairs l = match l with [] -> [] | a :: b :: t -> (nn a, nn b) :: pairs t | _ -> failwith "pairs"
 
+(* v-mode class expression, prefix form: c cp | r a b | e neg k a1 b1 .. | s k len cps.. | U k .. | I k .. | S k .. | N e *)
+let rec parse_ve (toks : string list) : vexpr * string list =
+  let many k t = (let rec go k t = if k = 0 then ([], t) else let (e, r) = parse_ve t in let (es, r2) = go (k - 1) r in (e :: es, r2) in go k t) in
+  match toks with
+  | "c" :: c :: t -> (VCh (nn c), t)
+  | "r" :: a :: b :: t -> (VRange (nn a, nn b), t)
+  | "e" :: ng :: k :: t -> let (a, r) = take (2 * ios k) t in (VEsc (bos ng, pairs a), r)
+  | "s" :: k :: t ->
+    let rec strs k t = if k = 0 then ([], t) else
+      (match t with len :: t' -> let (a, r) = take (ios len) t' in let (xs, r2) = strs (k - 1) r in (List.map nn a :: xs, r2) | [] -> failwith "VCls s") in
+    let (ss, r) = strs (ios k) t in (VStrs ss, r)
+  | "U" :: k :: t -> let (es, r) = many (ios k) t in (VUnion es, r)
+  | "I" :: k :: t -> let (es, r) = many (ios k) t in (VInter es, r)
+  | "S" :: k :: t -> let (es, r) = many (ios k) t in (VSub es, r)
+  | "N" :: t -> let (e, r) = parse_ve t in (VNeg e, r)
+  | _ -> failwith "VCls"
+
 let rec parse (toks : string list) : regex * string list =
   match toks with
   | "E" :: t -> (REmpty, t)
@@ -23,6 +40,7 @@ let rec parse (toks : string list) : regex * string list =
       (match t with len :: t' -> let (a, r) = take (ios len) t' in let (xs, r2) = strs (k - 1) r in (List.map nn a :: xs, r2) | [] -> failwith "SCls") in
     let (ss, r) = strs (ios ns) t in
     (match r with k :: r' -> let (a, r2) = take (2 * ios k) r' in (RStrClass (ss, pairs a, bos ic), r2) | [] -> failwith "SCls2")
+  | "VCls" :: ic :: t -> let (e, r) = parse_ve t in (RVClass (e, bos ic), r)
   | "Seq" :: t -> let (a, r) = parse t in let (b, r2) = parse r in (RSeq (a, b), r2)
   | "Alt" :: t -> let (a, r) = parse t in let (b, r2) = parse r in (RAlt (a, b), r2)
   | "Grp" :: id :: t -> let (a, r) = parse t in (RGroup (nat_of_int (ios id), a), r)
